@@ -84,6 +84,12 @@ func (d *DebugDialer) Dial(ctx context.Context, urlstr string) (conn net.Conn, b
 
 		onResponse(p[:n])
 
+		if br == nil && err == nil && len(p) > h {
+			// Server has sent bytes right after the response which were
+			// prefetched into resBuf but not yet read by the Dialer: they
+			// must be given back to the caller as well.
+			br = bufio.NewReader(conn)
+		}
 		if br != nil {
 			// If br is non-nil, then it mean two things. First is that
 			// handshake is OK and server has sent additional bytes – probably
